@@ -37,6 +37,7 @@ def main() -> int:
     ap.add_argument("--tier", default="quick")
     ap.add_argument("--skip-suite", action="store_true")
     ap.add_argument("--checks", nargs="*")
+    ap.add_argument("--as", dest="store_as", default=None, help="directory name under /verif/seeded (default <ID><suffix>)")
     ap.add_argument("--store", action="store_true", help="keep the confirmed change under /verif/seeded/<ID><suffix>/")
     args = ap.parse_args()
     d = Path(args.dir)
@@ -91,7 +92,7 @@ def main() -> int:
     print(json.dumps(out, indent=1))
     confirmed = out.get("demo_clean_rc") == 0 and out.get("demo_patched_rc") not in (0, None) and out.get("suite_rc") in (0, None) and out.get("apply_rc") == 0
     if args.store and confirmed:
-        dest = VERIF / "seeded" / f"{args.prop}{args.suffix}"
+        dest = VERIF / "seeded" / (args.store_as or f"{args.prop}{args.suffix}")
         dest.mkdir(parents=True, exist_ok=True)
         shutil.copy(patch, dest / "patch.diff")
         shutil.copy(demo, dest / "demo.py")
